@@ -196,39 +196,45 @@ structure ProofOutline where
 /-- `universal_closure_with_quantifier_joining` -/
 def Formula.closureJoined (f : Formula) : Formula := joinNestedQuantifiers f.universalClosure
 
+/-- one entry of the outline; the state is the outline so far, the taken predicates, and the
+    predicates of the lemmas seen so far (fix d771171: a definition may not define one of those) -/
+def outlineStep (m : PlaceholderMap) (st : Outcome (ProofOutline × List Pred × List Pred)) (anf0 : SAnn) :
+    Outcome (ProofOutline × List Pred × List Pred) :=
+  match st with
+  | .ok (po, taken, lem) =>
+    let anf := anf0.replacePlaceholders m
+    match anf.role with
+    | .lemma | .inductiveLemma =>
+      let closed : SAnn := ({ anf with formula := anf.formula.closureJoined } : SAnn).replacePlaceholders m
+      match generalLemma closed with
+      | .ok gl =>
+        let lem := ext lem anf.formula.preds
+        match anf.direction with
+        | .universal => .ok ({ po with forwardLemmas := po.forwardLemmas ++ [gl], backwardLemmas := po.backwardLemmas ++ [gl] }, taken, lem)
+        | .forward => .ok ({ po with forwardLemmas := po.forwardLemmas ++ [gl] }, taken, lem)
+        | .backward => .ok ({ po with backwardLemmas := po.backwardLemmas ++ [gl] }, taken, lem)
+      | .err e => .err e
+      | .panic s => .panic s
+      | .timeout => .timeout
+    | .definition =>
+      match checkDefinition anf.formula taken with
+      | .ok p =>
+        if p ∈ lem then .err .takenPredicate else
+        let taken := ins taken p
+        match anf.direction with
+        | .forward => .ok ({ po with forwardDefinitions := po.forwardDefinitions ++ [anf] }, taken, lem)
+        | .backward => .ok ({ po with backwardDefinitions := po.backwardDefinitions ++ [anf] }, taken, lem)
+        | .universal => .ok ({ po with forwardDefinitions := po.forwardDefinitions ++ [anf],
+                                       backwardDefinitions := po.backwardDefinitions ++ [anf] }, taken, lem)
+      | .err e => .err e
+      | .panic s => .panic s
+      | .timeout => .timeout
+    | .assumption | .spec => .err .annotatedFormulaWithInvalidRole
+  | other => other
+
 def proofOutlineFrom (spec : Specification) (taken : List Pred) (m : PlaceholderMap) :
     Outcome ProofOutline :=
-  let step (st : Outcome (ProofOutline × List Pred)) (anf0 : SAnn) : Outcome (ProofOutline × List Pred) :=
-    match st with
-    | .ok (po, taken) =>
-      let anf := anf0.replacePlaceholders m
-      match anf.role with
-      | .lemma | .inductiveLemma =>
-        let closed : SAnn := ({ anf with formula := anf.formula.closureJoined } : SAnn).replacePlaceholders m
-        match generalLemma closed with
-        | .ok gl =>
-          match anf.direction with
-          | .universal => .ok ({ po with forwardLemmas := po.forwardLemmas ++ [gl], backwardLemmas := po.backwardLemmas ++ [gl] }, taken)
-          | .forward => .ok ({ po with forwardLemmas := po.forwardLemmas ++ [gl] }, taken)
-          | .backward => .ok ({ po with backwardLemmas := po.backwardLemmas ++ [gl] }, taken)
-        | .err e => .err e
-        | .panic s => .panic s
-        | .timeout => .timeout
-      | .definition =>
-        match checkDefinition anf.formula taken with
-        | .ok p =>
-          let taken := ins taken p
-          match anf.direction with
-          | .forward => .ok ({ po with forwardDefinitions := po.forwardDefinitions ++ [anf] }, taken)
-          | .backward => .ok ({ po with backwardDefinitions := po.backwardDefinitions ++ [anf] }, taken)
-          | .universal => .ok ({ po with forwardDefinitions := po.forwardDefinitions ++ [anf],
-                                         backwardDefinitions := po.backwardDefinitions ++ [anf] }, taken)
-        | .err e => .err e
-        | .panic s => .panic s
-        | .timeout => .timeout
-      | .assumption | .spec => .err .annotatedFormulaWithInvalidRole
-    | other => other
-  match spec.foldl step (.ok ({}, taken)) with
+  match spec.foldl (outlineStep m) (.ok ({}, taken, [])) with
   | .ok (po, _) => .ok po
   | .err e => .err e
   | .panic s => .panic s
